@@ -91,6 +91,44 @@ class OffsetModel:
             return NotImplemented
 
         ev.hooks.update({"get": h_get, "call:Offset::simple": h_simple, "call:Offset::new": h_new, "into": h_into})
+
+        def h_any(ev, recv, args, node, env):
+            # a helper method of TextSelection / TextResource that is not in the table: follow it if it is unique
+            ty = "TextSelection" if isinstance(recv, Interval) else ("TextResource" if isinstance(recv, StructVal) and recv.tyname == "TextResource" else None)
+            if ty is None:
+                return NotImplemented
+            cands = [f for f in m.syn.fns if f.name == node["method"] and (f.self_ty or "") == ty and f.trait is None and f.body is not None]
+            if len(cands) != 1:
+                return NotImplemented
+            fn = cands[0]
+            params = [i["pat"].get("name") for i in fn.sig["inputs"]]
+            if len(params) != len(args):
+                return NotImplemented
+            m.depth += 1
+            try:
+                if m.depth > 8:
+                    raise Unknown("recursion depth")
+                env2 = {"self": recv}
+                env2.update(zip(params, args))
+                return ev.run_body(fn.body, env2)
+            finally:
+                m.depth -= 1
+        ev.hooks["*"] = h_any
+
+        def h_map(ev, recv, args, node, env):
+            if (recv is None or is_some(recv)) and args and isinstance(args[0], tuple) and args[0][0] == "closure":
+                if recv is None:
+                    return None
+                clo = args[0][1]
+                from formula import match_pat
+                env2 = dict(env)
+                b_ = {}
+                if len(clo["inputs"]) != 1 or not match_pat(clo["inputs"][0], recv[1], b_):
+                    raise Unknown("closure parameter pattern")
+                env2.update(b_)
+                return some(ev.eval(clo["body"], env2))
+            return NotImplemented
+        ev.hooks["map"] = h_map
         return ev
 
     def call(self, ev, key, recv, args, noself=False):
